@@ -551,11 +551,18 @@ def tokSkip (m : Mem) (delim : Ptr) (fuel : Nat) : Nat → Ptr → Option (Sum P
       | some _ => tokSkip m delim fuel g (str + 1)
       | none => pure (.inr (str + 1))
 
+/-- `if (str == NULL && (NULL == (str = *saveptr))) return NULL;` — where the
+search starts, `none` for the early return -/
+def tokStart (str save : Option Ptr) : Option Ptr :=
+  match str with
+  | some p => some p
+  | none => save
+
 /-- returns `(memory, *saveptr, result)` -/
 def strtok_r (m : Mem) (str : Option Ptr) (delim : Ptr) (save : Option Ptr) (fuel : Nat) :
     Option (Mem × Option Ptr × Option Ptr) := do
   -- if (str == NULL && (NULL == (str = *saveptr))) return NULL;
-  match (match str with | some p => some p | none => save) with
+  match tokStart str save with
   | none => pure (m, save, none)
   | some str =>
     match ← tokSkip m delim fuel fuel str with
@@ -574,7 +581,7 @@ def strtok_r (m : Mem) (str : Option Ptr) (delim : Ptr) (save : Option Ptr) (fue
 "no token" exit -/
 def strtok_rOrig (m : Mem) (str : Option Ptr) (delim : Ptr) (save : Option Ptr) (fuel : Nat) :
     Option (Mem × Option Ptr × Option Ptr) := do
-  match (match str with | some p => some p | none => save) with
+  match tokStart str save with
   | none => pure (m, save, none)
   | some str =>
     match ← tokSkip m delim fuel fuel str with
